@@ -232,6 +232,39 @@ pub fn check_edits(ctx: &mut Ctx, mode: Mode, p: &Pos, b: &Board, n_squares: usi
 /// (reference position, library board, description).  Used by the properties that quantify over
 /// "every valid position" so that they also see boards whose cached check / pin data was computed
 /// by those paths.  Only results that are valid positions are returned.
+/// Men standing in pairs between a king and an enemy slider aimed at it (nothing else on the
+/// line): taking one of the two away turns the other into a pinned piece, or - when the pair
+/// screens the king of the side not to move - into the single blocker of a masked battery.
+pub fn double_blockers(p: &Pos) -> Vec<Sq> {
+    let mut out = vec![];
+    for c in [Col::W, Col::B] {
+        let k = match p.king_sq(c) {
+            Some(k) => k,
+            None => continue,
+        };
+        for (df, dr) in [(1i8, 0i8), (-1, 0), (0, 1), (0, -1), (1, 1), (1, -1), (-1, 1), (-1, -1)] {
+            let mut between: Vec<Sq> = vec![];
+            let (mut f, mut r) = (file_of(k) + df, rank_of(k) + dr);
+            while let Some(s) = mk(f, r) {
+                if let Some((pc, pk)) = p.at(s) {
+                    let slides = pk == Kind::Q || (pk == Kind::R && (df == 0 || dr == 0)) || (pk == Kind::B && df != 0 && dr != 0);
+                    if pc != c && slides && between.len() == 2 {
+                        out.extend(between.iter().copied());
+                        break;
+                    }
+                    between.push(s);
+                    if between.len() > 2 {
+                        break;
+                    }
+                }
+                f += df;
+                r += dr;
+            }
+        }
+    }
+    out
+}
+
 pub fn other_ways(p: &Pos, b: &Board, n_squares: usize) -> Vec<(Pos, Board, String)> {
     let mut out = vec![];
     let h = fp(&(p, "other-ways"));
@@ -258,6 +291,7 @@ pub fn other_ways(p: &Pos, b: &Board, n_squares: usize) -> Vec<(Pos, Board, Stri
         // squares chosen by the fingerprint
         let mut squares: Vec<Sq> = p.checkers();
         squares.extend(p.pinned());
+        squares.extend(double_blockers(p));
         for i in 0..n_squares {
             squares.push(((h >> (6 * i)) & 63) as u8);
         }
